@@ -34,6 +34,9 @@ type Op struct {
 	P    hx.B   `json:"p,omitempty"`    // path argument, raw bytes
 	Data hx.B   `json:"data,omitempty"` // STOR payload
 	Z    int64  `json:"z,omitempty"`    // REST argument
+	// data-channel fault of a transfer command: "reset" (STOR: after Data has been sent;
+	// LIST/NLST: before anything is read), "nodata" (LIST/NLST without a data connection)
+	Fault string `json:"fault,omitempty"`
 }
 
 type Input struct {
